@@ -28,6 +28,7 @@ def main():
             return 0
         return f(rp)
     try:
+        os.environ['VERIF_TIER_RUNNING'] = a.tier
         rep, replayer = mod.run(a.tier, seed)
         return common.finish(rep, replayer)
     except Exception:
